@@ -11,10 +11,10 @@
 package simrt
 
 import (
-	"os"
 	"context"
 	"database/sql"
 	"fmt"
+	"os"
 	"reflect"
 	"runtime"
 	"runtime/debug"
@@ -38,17 +38,17 @@ const (
 
 // Task is one managed goroutine.
 type Task struct {
-	ID     int
-	Name   string
-	wake   chan struct{}
-	kill   chan struct{}
-	state  atomic.Int32
-	daemon bool   // AfterFunc task whose timer has not fired (or harness daemon)
-	on     string // what it is blocked on (diagnostics)
-	prio   int64  // PCT priority
-	nameH  uint32
-	picks  uint32
-	starve int // consecutive scheduling steps this task was ready but not picked
+	ID        int
+	Name      string
+	wake      chan struct{}
+	kill      chan struct{}
+	state     atomic.Int32
+	daemon    bool   // AfterFunc task whose timer has not fired (or harness daemon)
+	on        string // what it is blocked on (diagnostics)
+	prio      int64  // PCT priority
+	nameH     uint32
+	picks     uint32
+	starve    int // consecutive scheduling steps this task was ready but not picked
 	parkUntil int // not offered to the scheduler before this step (long preemption)
 	// the map access this task is about to perform (it sits at the scheduling
 	// point right in front of it); 0 = none
@@ -84,8 +84,8 @@ type Options struct {
 	// descheduled or briefly frozen goroutine) while everything else carries on
 	// and timers fire.
 	PausePermille int
-	// MapPausePermille > 0: a task about to write a shared map pauses (1 / 5 / 20 ms)
-	// with this probability (a tenth of it before a read),
+	// MapPausePermille > 0: a task about to write a shared map pauses (1 / 20 / 300 ms;
+	// 1 / 5 / 20 ms before a read) with this probability (a tenth of it before a read),
 	// so that accesses driven by different timers can meet.
 	MapPausePermille int
 	// SpawnPausePermille > 0: right after a go statement the spawning task is,
@@ -93,9 +93,9 @@ type Options struct {
 	// for 1 / 20 ms - the new goroutine runs far ahead of its parent, as it
 	// does when it lands on an idle processor.
 	SpawnPausePermille int
-	Log           bool // keep the event log
-	MaxLog        int
-	RotateMaps    bool // permute canonical map iteration order from the stream
+	Log                bool // keep the event log
+	MaxLog             int
+	RotateMaps         bool // permute canonical map iteration order from the stream
 	// Fairness bounds starvation: a task that was ready but not picked for this
 	// many consecutive steps is scheduled next without consulting the stream
 	// (default 64). Liveness oracles assume a fair scheduler; priority-based
@@ -118,17 +118,18 @@ type Sim struct {
 	Steps     int
 	Branching int // task decisions with >= 2 ready tasks
 	Stalls    int
-	Forced    int    // picks forced by the fairness bound
-	Parks     int    // long preemptions injected (ParkPermille)
-	Pauses    int    // single-task pauses injected (PausePermille)
-	MapOps    int    // instrumented accesses to shared maps
+	Forced    int // picks forced by the fairness bound
+	Parks     int // long preemptions injected (ParkPermille)
+	Pauses    int // single-task pauses injected (PausePermille)
+	MapOps    int // instrumented accesses to shared maps
 	// Races: unordered conflicting accesses to one map (see MapOp), by map expression
-	Races     map[string]string
-	maps      map[uintptr]*mapState
-	Hash      uint64 // hash of the schedule (task name + ordinal at every branching decision)
-	seq       uint64
-	start     time.Time
-	End       time.Duration // simulated time at the end of main
+	Races      map[string]string
+	maps       map[uintptr]*mapState
+	sitePauses map[string]int // pauses injected so far, by map-access / spawn site
+	Hash       uint64         // hash of the schedule (task name + ordinal at every branching decision)
+	seq        uint64
+	start      time.Time
+	End        time.Duration // simulated time at the end of main
 
 	Panics    []string // panics that escaped a task's top frame
 	Exhausted bool     // step cap reached
@@ -150,6 +151,10 @@ type Sim struct {
 // traceSched (SIMRT_TRACE=1) adds every scheduling decision to the event log
 // of a logged run; a debugging aid for replays.
 var traceSched = os.Getenv("SIMRT_TRACE") != ""
+
+// mapTrace (SIMRT_MAPTRACE=<substring of a site>) logs the watched accesses of
+// matching sites; a debugging aid.
+var mapTrace = os.Getenv("SIMRT_MAPTRACE")
 
 // S is the active simulation; nil means pass-through.
 var S *Sim
@@ -204,8 +209,14 @@ func Go(name string, f func()) {
 	}
 	go s.taskMain(t, f)
 	if pm := s.opts.SpawnPausePermille; pm > 0 && s.cur != nil && !s.cur.pausing && s.cur.st() == stRunning {
-		// the new goroutine gets ahead of the one that started it
-		switch v := s.St.Biased(5, 1000-pm, "spawn-pause"); v {
+		// the new goroutine gets ahead of the one that started it (per spawn
+		// site the probability halves with every pause already injected)
+		pm >>= uint(min(s.sitePauses["go "+name], 16))
+		v := s.St.Biased(5, 1000-pm, "spawn-pause")
+		if v > 0 {
+			s.notePause("go " + name)
+		}
+		switch v {
 		case 1, 2:
 			s.cur.parkUntil = s.Steps + []int{0, 128, 4000}[v]
 			s.Parks++
@@ -392,6 +403,9 @@ func (s *Sim) access(p uintptr, pin unsafe.Pointer, write bool, site string, isV
 		}
 	}
 	s.MapOps++
+	if mapTrace != "" && strings.Contains(site, mapTrace) {
+		Logf("MAPOP %s write=%v", site, write)
+	}
 	for _, o := range s.tasks {
 		if o != t && o.mapP == p && o.mapVar == isVar && (write || o.mapW) && o.st() != stDone {
 			s.noteRace(t, site, write, o, isVar)
@@ -402,10 +416,19 @@ func (s *Sim) access(p uintptr, pin unsafe.Pointer, write bool, site string, isV
 		if !write {
 			pm /= 10
 		}
+		// the probability halves with every pause already injected at this
+		// site in this run: a site that is passed thousands of times (every
+		// field stitched into a response) must not stretch the run by minutes
+		pm >>= uint(min(s.sitePauses[site], 16))
 		if v := s.St.Biased(4, 1000-pm, "map-pause"); v > 0 {
+			s.notePause(site)
 			s.Pauses++
 			t.pausing = true
-			Sleep([]time.Duration{0, time.Millisecond, 5 * time.Millisecond, 20 * time.Millisecond}[v])
+			if write {
+				Sleep([]time.Duration{0, time.Millisecond, 20 * time.Millisecond, 300 * time.Millisecond}[v])
+			} else {
+				Sleep([]time.Duration{0, time.Millisecond, 5 * time.Millisecond, 20 * time.Millisecond}[v])
+			}
 			t.pausing = false
 			t.mapP = 0
 			return
@@ -420,6 +443,13 @@ type mapState struct {
 	owner  *Task
 	shared bool // a task other than the first one has accessed it
 	hot    bool // written since it became shared
+}
+
+func (s *Sim) notePause(site string) {
+	if s.sitePauses == nil {
+		s.sitePauses = map[string]int{}
+	}
+	s.sitePauses[site]++
 }
 
 func accessKind(w bool) string {
